@@ -335,7 +335,7 @@ func (gopt *GetOpt) Parse(args []string) ([]string, error) {
 		Logger.SetPrefix("\n")
 		Logger.Printf("mode: %s, COMP_LINE: '%s', parts: %#v, args: %#v\n", completionTarget, compLine, compLineParts, args)
 		// The first word of COMP_LINE is the program name, it is not an argument.
-		_, completions, err := parseCLIArgs(completionTarget, gopt.programTree, compLineParts[1:], Normal)
+		_, completions, err := parseCLIArgs(completionTarget, gopt.programTree, compLineParts[1:], gopt.programTree.mode)
 		if err != nil {
 			fmt.Fprintf(Writer, "\nERROR: %s\n", err)
 			exitFn(124) // programmable completion restarts from the beginning, with an attempt to find a new compspec for that command.
